@@ -1230,13 +1230,7 @@ func (i *interpreter) appendValues(dst, src []value, fn *ssa.Builtin) value {
 		elem = sl.Elem()
 	}
 	i.chargeAlloc(uint64(len(src)), elem)
-	ncap := 2 * cap(dst)
-	if ncap < n {
-		ncap = n
-	}
-	if ncap < 4 {
-		ncap = 4
-	}
+	ncap := i.growCap(cap(dst), n, elem)
 	r := make([]value, n, ncap)
 	copy(r, dst)
 	copy(r[len(dst):], src)
@@ -1662,4 +1656,73 @@ func fandbits[F floaty](x, y F) F {
 		*(*uint64)(unsafe.Pointer(&x)) &= *(*uint64)(unsafe.Pointer(&y))
 	}
 	return x
+}
+
+// ---- slice growth as the Go runtime does it (runtime.growslice, go1.23) -------
+// Aliasing after append depends on the capacity append leaves behind, so the
+// engine reproduces the runtime's policy: doubling below 256 elements, 1.25x
+// + 192 above, then rounding the byte size up to the allocator's size class.
+
+var goSizeClasses = []uint64{0, 8, 16, 24, 32, 48, 64, 80, 96, 112, 128, 144, 160, 176, 192, 208, 224, 240, 256, 288, 320, 352, 384, 416, 448, 480, 512, 576, 640, 704, 768, 896, 1024, 1152, 1280, 1408, 1536, 1792, 2048, 2304, 2688, 3072, 3200, 3456, 4096, 4864, 5376, 6144, 6528, 6784, 6912, 8192, 9472, 9728, 10240, 10880, 12288, 13568, 14336, 16384, 18432, 19072, 20480, 21760, 24576, 27264, 28672, 32768}
+
+func goClassSize(n uint64) uint64 {
+	for _, c := range goSizeClasses {
+		if c >= n {
+			return c
+		}
+	}
+	return n
+}
+
+func goRoundupsize(size uint64, noscan bool) uint64 {
+	if size <= 32768-8 {
+		if !noscan && size > 512 {
+			return goClassSize(size+8) - 8
+		}
+		return goClassSize(size)
+	}
+	return (size + 8191) &^ 8191
+}
+
+func typeHasPointers(t types.Type) bool {
+	switch u := t.Underlying().(type) {
+	case *types.Basic:
+		return u.Info()&types.IsString != 0 || u.Kind() == types.UnsafePointer
+	case *types.Struct:
+		for k := 0; k < u.NumFields(); k++ {
+			if typeHasPointers(u.Field(k).Type()) {
+				return true
+			}
+		}
+		return false
+	case *types.Array:
+		return u.Len() > 0 && typeHasPointers(u.Elem())
+	}
+	return true
+}
+
+func (i *interpreter) growCap(oldCap, newLen int, elem types.Type) int {
+	newcap := oldCap
+	if double := oldCap + oldCap; newLen > double {
+		newcap = newLen
+	} else if oldCap < 256 {
+		newcap = double
+	} else {
+		for newcap < newLen {
+			newcap += (newcap + 3*256) >> 2
+		}
+	}
+	esz, noscan := uint64(8), true
+	if elem != nil {
+		esz = uint64(i.sizes.Sizeof(elem))
+		noscan = !typeHasPointers(elem)
+	}
+	if esz == 0 {
+		return newcap
+	}
+	c := int(goRoundupsize(uint64(newcap)*esz, noscan) / esz)
+	if c < newLen {
+		c = newLen
+	}
+	return c
 }
